@@ -346,6 +346,8 @@ class IOOpsMixin:
             self.probe("energy_file_overwritten")
             if prev["data"]["nv"] > d["nv"]:
                 self.probe("energy_file_overwritten_by_smaller")
+            if (prev["data"]["nv"], prev["data"]["nq"], prev["data"]["np"]) == (d["nv"], d["nq"], d["np"]):
+                self.probe("energy_file_overwritten_same_size")
         self.disk[relp] = {"state": "indeterminate", "writer": client, "kind": "energy"}
         kw = {}
         if op.get("comment") is not None:
